@@ -188,7 +188,7 @@ pub fn run_one(args: &ShardArgs, rng: &mut Rng, rep: &mut Report, k: usize) {
 			let jh = jobs_in_handler.clone();
 			let qr = quit_returned_at.clone();
 			config.on_action_async(move |mut action| {
-				let phases: Vec<String> = action.events.iter().filter_map(|e| e.metadata.get("verif-phase").and_then(|v| v.first().cloned())).collect();
+				let phases: Vec<String> = action.events.iter().filter_map(|e| e.metadata.get("verif-phase").cloned()).flatten().collect();
 				let scn = scn.clone();
 				let vchild = vchild.clone();
 				let log = log.clone();
@@ -249,9 +249,10 @@ pub fn run_one(args: &ShardArgs, rng: &mut Rng, rep: &mut Report, k: usize) {
 		let mut setup_ok = true;
 		if scn.same_action {
 			// the quit is requested by the very action that creates the jobs: all three phases in one batch
-			for ph in ["setup", "prep", "quit"] {
-				wx.send_event(phase_event(ph), Priority::Normal).await.ok();
-			}
+			// one event carrying all three phases: a single invocation of the handler creates, drives and quits
+			let mut ev = phase_event("setup");
+			ev.metadata.insert("verif-phase".to_string(), vec!["setup".into(), "prep".into(), "quit".into()]);
+			wx.send_event(ev, Priority::Normal).await.ok();
 		} else {
 			wx.send_event(phase_event("setup"), Priority::Urgent).await.ok();
 			// readiness: every process that is going to run has written its `start` line
